@@ -285,9 +285,11 @@ pub open spec fn text_val(t: Seq<u8>, radix: u32) -> nat {
     valr(rev8(digs(t, t.len())), radix as nat, digs(t, t.len()).len())
 }
 
+impl BigUint {
+    // contract-only re-homing of `impl Num for BigUint` / `impl FromStr for BigUint` (external traits)
 //@ extract src/biguint/convert.rs :: impl Num for BigUint :: fn from_str_radix rules=R0,R11,R48 props=C06,C14 label=biguint_from_str_radix
 /*+*/#[verifier::loop_isolation(false)]
-/*-*/fn from_str_radix(s: &[u8], radix: u32) -> /*+*/(r: /*-*/Result<BigUint, ParseBigIntError>/*+*/)/*-*/
+pub(super) /*-*/fn from_str_radix(s: &[u8], radix: u32) -> /*+*/(r: /*-*/Result<BigUint, ParseBigIntError>/*+*/)/*-*/
 //+{
     requires !mp() ==> 2 <= radix <= 36
     ensures mp() ==> 2 <= radix <= 36,
@@ -388,6 +390,20 @@ pub open spec fn text_val(t: Seq<u8>, radix: u32) -> nat {
 }
 //@ end
 
+//@ extract src/biguint/convert.rs :: impl FromStr for BigUint :: fn from_str rules=R0,R48 props=C06,C14 label=biguint_from_str
+    /*+*/pub(super) /*-*/fn from_str(s: &[u8]) -> /*+*/(r: /*-*/Result<BigUint, ParseBigIntError>/*+*/)/*-*/
+//+{
+        ensures
+            r is Ok <==> body_ok(unsigned_body(s@), 10),
+            r is Ok ==> r->Ok_0.wf() && r->Ok_0.v() == text_val(unsigned_body(s@), 10),
+            r is Err ==> (r->Err_0.is_empty_kind() <==> unsigned_body(s@).len() == 0),
+//+}
+    {
+        BigUint::from_str_radix(s, 10)
+    }
+//@ end
+}
+
 //@ extract src/biguint/convert.rs :: fn from_radix_le rules=R0,R11,R12d,R30e props=C06,C14
 pub(super) fn from_radix_le(buf: &[u8], radix: u32) -> /*+*/(r: /*-*/Option<BigUint>/*+*/)/*-*/
 //+{
@@ -453,6 +469,40 @@ pub open spec fn is_ascii_digit_lc(b: u8) -> bool { (48 <= b <= 57) || (97 <= b 
 /// digit value of a lower-case ASCII digit character
 pub open spec fn dec(b: u8) -> u8 { if b <= 57 { (b - 48) as u8 } else { (b - 87) as u8 } }
 pub open spec fn dec_seq(s: Seq<u8>) -> Seq<u8> { Seq::new(s.len(), |i: int| dec(s[i])) }
+/// t is the canonical text of v in the given radix: lower-case digits below the radix, most significant first,
+/// denoting v, without leading zeros ("0" for zero)
+pub open spec fn printed(t: Seq<u8>, radix: u32, v: nat) -> bool {
+    &&& t.len() >= 1
+    &&& forall|i: int| 0 <= i < t.len() ==> is_ascii_digit_lc(#[trigger] t[i]) && (dec(t[i]) as u32) < radix
+    &&& valr(rev8(dec_seq(t)), radix as nat, t.len()) == v
+    &&& (v == 0 ==> t =~= seq![48u8])
+    &&& (v != 0 ==> t[0] != 48)
+}
+/// the emitted text parses back to the value (both by the contracts of the emitter and of the parser)
+pub proof fn lemma_print_parse(t: Seq<u8>, radix: u32, v: nat)
+    requires printed(t, radix, v), 2 <= radix <= 36
+    ensures body_ok(unsigned_body(t), radix), text_val(unsigned_body(t), radix) == v
+{
+    assert(is_ascii_digit_lc(t[0]));
+    assert(unsigned_body(t) == t);
+    lemma_digs_plain(t, t.len());
+    assert(dec_seq(t).subrange(0, t.len() as int) =~= dec_seq(t));
+    assert(digs(t, t.len()) == dec_seq(t));
+    assert forall|i: int| 0 <= i < t.len() implies t[i] == 95 || (#[trigger] cval(t[i]) as u32) < radix by {
+        assert(is_ascii_digit_lc(t[i]));
+    }
+}
+/// without underscores the parser's digit list is the decoded text
+pub proof fn lemma_digs_plain(t: Seq<u8>, n: nat)
+    requires n <= t.len(), forall|i: int| 0 <= i < t.len() ==> is_ascii_digit_lc(#[trigger] t[i])
+    ensures digs(t, n) =~= dec_seq(t).subrange(0, n as int)
+    decreases n
+{
+    if n > 0 {
+        lemma_digs_plain(t, (n - 1) as nat);
+        assert(is_ascii_digit_lc(t[n - 1]));
+    }
+}
 pub proof fn lemma_valr_ext(s: Seq<u8>, t: Seq<u8>, radix: nat, k: nat)
     requires forall|i: int| 0 <= i < k ==> s[i] == t[i]
     ensures valr(s, radix, k) == valr(t, radix, k)
@@ -534,7 +584,7 @@ impl BigUint {
     pub fn to_str_radix(&self, radix: u32) -> /*+*/(r: /*-*/String/*+*/)/*-*/
 //+{
         requires self.wf(), !mp() ==> 2 <= radix <= 36
-        ensures mp() ==> 2 <= radix <= 36
+        ensures mp() ==> 2 <= radix <= 36, convert::printed(sbytes(r), radix, self.v())
 //+}
     {
         let mut v = to_str_radix_reversed(self, radix);
@@ -544,13 +594,29 @@ impl BigUint {
         v.reverse();
 //+{
         proof {
-            assert forall|i: int| 0 <= i < v@.len() implies v@[i] < 128 by {
+            assert forall|i: int| 0 <= i < v@.len() implies v@[i] < 128 && is_ascii_digit_lc(#[trigger] v@[i]) && (dec(v@[i]) as u32) < radix by {
                 assert(v@[i] == v0[v0.len() - 1 - i]);
                 assert(is_ascii_digit_lc(v0[v0.len() - 1 - i]));
             }
+            assert(rev8(dec_seq(v@)) =~= dec_seq(v0));
+            if self.v() == 0 { assert(v@ =~= seq![48u8]); }
         }
 //+}
         __from_utf8_unchecked(v)
+    }
+//@ end
+
+//@ extract src/biguint.rs :: impl BigUint :: fn parse_bytes rules=R0,R48 props=C06,C14 label=biguint_parse_bytes
+    pub fn parse_bytes(buf: &[u8], radix: u32) -> /*+*/(r: /*-*/Option<BigUint>/*+*/)/*-*/
+//+{
+        requires !mp() ==> 2 <= radix <= 36
+        ensures mp() ==> 2 <= radix <= 36 || !is_utf8(buf@),
+            r is Some <==> is_utf8(buf@) && convert::body_ok(convert::unsigned_body(buf@), radix),
+            r is Some ==> r.unwrap().wf() && r.unwrap().v() == convert::text_val(convert::unsigned_body(buf@), radix),
+//+}
+    {
+        let s = __from_utf8_ok(buf)?;
+        BigUint::from_str_radix(s, radix).ok()
     }
 //@ end
 
@@ -625,9 +691,87 @@ pub struct BigInt {
 }
 //@ end
 //@ include prelude/bigint_view.rs
+/// canonical text of a signed value: '-' and the magnitude's text for negatives, the magnitude's text otherwise
+pub open spec fn iprinted(t: Seq<u8>, radix: u32, x: int) -> bool {
+    if x < 0 { t.len() >= 1 && t[0] == 45 && convert::printed(t.subrange(1, t.len() as int), radix, (-x) as nat) } else { convert::printed(t, radix, x as nat) }
+}
+/// the emitted signed text parses back to the value
+pub proof fn lemma_iprint_parse(t: Seq<u8>, radix: u32, x: int)
+    requires iprinted(t, radix, x), 2 <= radix <= 36
+    ensures convert::body_ok(signed_body(t), radix), sgn(signed_sign(t)) * (convert::text_val(signed_body(t), radix) as int) == x
+{
+    if x < 0 {
+        let m = t.subrange(1, t.len() as int);
+        assert(convert::is_ascii_digit_lc(m[0]));
+        assert(t[1] == m[0]);
+        convert::lemma_print_parse(m, radix, (-x) as nat);
+        lemma_sgn_mul(Sign::Minus, (-x) as nat);
+    } else {
+        assert(convert::is_ascii_digit_lc(t[0]));
+        convert::lemma_print_parse(t, radix, x as nat);
+        lemma_sgn_mul(Sign::Plus, x as nat);
+    }
+}
+/// sign announced by an optional leading '-'
+pub open spec fn signed_sign(s: Seq<u8>) -> Sign { if s.len() > 0 && s[0] == 45 { Sign::Minus } else { Sign::Plus } }
+/// the unsigned text of a signed literal: after '-' (unless a '+' follows: then nothing is stripped and the '-' is an invalid digit), then after one optional '+'
+pub open spec fn signed_body(s: Seq<u8>) -> Seq<u8> {
+    convert::unsigned_body(if s.len() > 0 && s[0] == 45 && !(s.len() > 1 && s[1] == 43) { s.subrange(1, s.len() as int) } else { s })
+}
 impl BigInt {
 //@ stub i_core/from_biguint
 //@ stub i_core/is_negative
+
+    // contract-only re-homing of `impl Num for BigInt` / `impl FromStr for BigInt` (external traits)
+//@ extract src/bigint/convert.rs :: impl Num for BigInt :: fn from_str_radix rules=R0,R48 props=C06,C14 label=bigint_from_str_radix
+    fn from_str_radix(mut s: &[u8], radix: u32) -> /*+*/(r: /*-*/Result<BigInt, ParseBigIntError>/*+*/)/*-*/
+//+{
+        requires !mp() ==> 2 <= radix <= 36
+        ensures mp() ==> 2 <= radix <= 36,
+            r is Ok <==> convert::body_ok(signed_body(s@), radix),
+            r is Ok ==> r->Ok_0.wfi() && r->Ok_0.iv() == sgn(signed_sign(s@)) * (convert::text_val(signed_body(s@), radix) as int),
+            r is Err ==> (r->Err_0.is_empty_kind() <==> signed_body(s@).len() == 0),
+//+}
+    {
+        let sign = if let Some(tail) = __strip_prefix_byte(s, b'-') {
+            if !__starts_with_byte(tail, b'+') {
+                s = tail
+            }
+            Minus
+        } else {
+            Plus
+        };
+        let bu = BigUint::from_str_radix(s, radix)?;
+        Ok(BigInt::from_biguint(sign, bu))
+    }
+//@ end
+
+//@ extract src/bigint/convert.rs :: impl FromStr for BigInt :: fn from_str rules=R0,R48 props=C06,C14 label=bigint_from_str
+    fn from_str(s: &[u8]) -> /*+*/(r: /*-*/Result<BigInt, ParseBigIntError>/*+*/)/*-*/
+//+{
+        ensures
+            r is Ok <==> convert::body_ok(signed_body(s@), 10),
+            r is Ok ==> r->Ok_0.wfi() && r->Ok_0.iv() == sgn(signed_sign(s@)) * (convert::text_val(signed_body(s@), 10) as int),
+            r is Err ==> (r->Err_0.is_empty_kind() <==> signed_body(s@).len() == 0),
+//+}
+    {
+        BigInt::from_str_radix(s, 10)
+    }
+//@ end
+
+//@ extract src/bigint.rs :: impl BigInt :: fn parse_bytes rules=R0,R48 props=C06,C14 label=bigint_parse_bytes
+    pub fn parse_bytes(buf: &[u8], radix: u32) -> /*+*/(r: /*-*/Option<BigInt>/*+*/)/*-*/
+//+{
+        requires !mp() ==> 2 <= radix <= 36
+        ensures mp() ==> 2 <= radix <= 36 || !is_utf8(buf@),
+            r is Some <==> is_utf8(buf@) && convert::body_ok(signed_body(buf@), radix),
+            r is Some ==> r.unwrap().wfi() && r.unwrap().iv() == sgn(signed_sign(buf@)) * (convert::text_val(signed_body(buf@), radix) as int),
+//+}
+    {
+        let s = __from_utf8_ok(buf)?;
+        BigInt::from_str_radix(s, radix).ok()
+    }
+//@ end
 
 //@ extract src/bigint.rs :: impl BigInt :: fn from_radix_be props=C06,C14 label=bigint_from_radix_be
     pub fn from_radix_be(sign: Sign, buf: &[u8], radix: u32) -> /*+*/(r: /*-*/Option<BigInt>/*+*/)/*-*/
@@ -682,13 +826,19 @@ impl BigInt {
 //@ end
 
 //@ extract src/bigint.rs :: impl BigInt :: fn to_str_radix rules=R0,R1u props=C06,C14,C15 label=bigint_to_str_radix
-    pub fn to_str_radix(&self, radix: u32) -> String
+    pub fn to_str_radix(&self, radix: u32) -> /*+*/(r: /*-*/String/*+*/)/*-*/
 //+{
         requires self.wfi(), !mp() ==> 2 <= radix <= 36
-        ensures mp() ==> 2 <= radix <= 36
+        ensures mp() ==> 2 <= radix <= 36, iprinted(sbytes(r), radix, self.iv())
 //+}
     {
+//+{
+        proof { lemma_sgn_mul(self.sign, self.data.v()); }
+//+}
         let mut v = to_str_radix_reversed(&self.data, radix);
+//+{
+        let ghost m0 = v@;
+//+}
 
         if self.is_negative() {
             v.push(b'-');
@@ -703,6 +853,23 @@ impl BigInt {
             assert forall|i: int| 0 <= i < v@.len() implies v@[i] < 128 by {
                 assert(v@[i] == v0[v0.len() - 1 - i]);
                 if v0.len() - 1 - i < v0.len() - 1 || !(self.sign == Minus) { assert(convert::is_ascii_digit_lc(v0[v0.len() - 1 - i])); }
+            }
+            // the magnitude's text is the reversed digit list
+            let t = rev8(m0);
+            assert forall|i: int| 0 <= i < t.len() implies convert::is_ascii_digit_lc(#[trigger] t[i]) && (dec(t[i]) as u32) < radix by {
+                assert(t[i] == m0[m0.len() - 1 - i]);
+                assert(convert::is_ascii_digit_lc(m0[m0.len() - 1 - i]));
+            }
+            assert(rev8(dec_seq(t)) =~= dec_seq(m0));
+            if self.data.v() == 0 { assert(t =~= seq![48u8]); }
+            assert(convert::printed(t, radix, self.data.v()));
+            if self.sign == Minus {
+                assert(v@ =~= seq![45u8] + t);
+                assert(v@.subrange(1, v@.len() as int) =~= t);
+                assert(self.iv() < 0 && (-self.iv()) as nat == self.data.v());
+            } else {
+                assert(v@ =~= t);
+                assert(self.iv() >= 0 && self.iv() as nat == self.data.v());
             }
         }
 //+}
